@@ -944,9 +944,12 @@ def m_which(it, argv, text):
     (a relative entry gives a relative result); names containing a separator are resolved against the process cwd"""
     env = env_of(it)
     exe = it.as_str(argv[0]).b
-    if any(is_sym(b) for b in exe):
-        raise Unsupported("which() of a symbolic name")
-    if SLASH in exe:
+    has_slash = False
+    for b in exe:
+        if (b == SLASH) if not is_sym(b) else it.ctx.branch(t_eq(b, SLASH), 'which_slash'):
+            has_slash = True
+            break
+    if has_slash:
         n = env.lookup(exe)
         if n is not None and n[1] == 'file':
             return ok(StrV(comps_to_bytes(env.norm(exe))))
@@ -1042,9 +1045,42 @@ def m_channel(it, argv, text):
     # a new channel: the model keeps one channel per run
     env.receiver_dropped = False
     env.queue = []
+    env.blocked = []
+    env.chan_cap = None
     env.idle_empties = 0
     env.stuttered = False
     return TupleV((OpaqueV('Sender'), OpaqueV('Receiver')))
+
+
+@emodel('sync_channel')
+def m_sync_channel(it, argv, text):
+    """bounded channel: a send on a full channel blocks its thread until the receiver takes a message (capacity 0 = rendezvous)"""
+    r = m_channel(it, argv, text)
+    cap = argv[0]
+    if not isinstance(cap, int) or isinstance(cap, bool):
+        raise Unsupported("symbolic channel capacity")
+    env_of(it).chan_cap = cap
+    return TupleV((OpaqueV('SyncSender'), OpaqueV('Receiver')))
+
+
+def _chan_refill(env):
+    """blocked senders proceed as soon as the buffer has room"""
+    cap = getattr(env, 'chan_cap', None)
+    while getattr(env, 'blocked', None) and cap is not None and len(env.queue) < max(cap, 0):
+        env.queue.append(env.blocked.pop(0))
+
+
+def _chan_pop(env):
+    if env.queue:
+        msg = env.queue.pop(0)
+    else:
+        msg = env.blocked.pop(0)          # rendezvous hand-over
+    _chan_refill(env)
+    return msg
+
+
+def _chan_nonempty(env):
+    return bool(env.queue) or bool(getattr(env, 'blocked', None))
 
 
 @emodel('ThreadPool::execute')
@@ -1070,15 +1106,38 @@ def m_pool_join(it, argv, text):
     env = env_of(it)
     while env.pending:
         _run_task(it, env, 0)
+    if getattr(env, 'blocked', None):
+        # join() returns when every worker is idle; a worker blocked in send() on a full bounded channel never becomes idle
+        # while the only receiver is the thread that is waiting in join()
+        raise Violation("hang: ThreadPool::join waits for %d worker(s) blocked in send() on a full bounded channel that nobody "
+                        "receives from" % len(env.blocked), {'op': 'sched', 'trace': list(env.sched_trace)})
     return UNIT
 
 
-@emodel('Sender::send')
+@emodel('Sender::send', 'SyncSender::send')
 def m_send(it, argv, text):
     env = env_of(it)
     if getattr(env, 'receiver_dropped', False):
         # mpsc contract: send fails once the receiver has been dropped
         return err(OpaqueV('SendError'))
+    cap = getattr(env, 'chan_cap', None)
+    if cap is not None and len(env.queue) >= cap:
+        # the sending worker blocks here; its message is handed over when the receiver makes room (the task model is
+        # run-to-completion, and nothing follows the send in a worker, so only the hand-over is delayed)
+        env.blocked.append(argv[1])
+        return ok(UNIT)
+    env.queue.append(argv[1])
+    return ok(UNIT)
+
+
+@emodel('SyncSender::try_send')
+def m_try_send(it, argv, text):
+    env = env_of(it)
+    if getattr(env, 'receiver_dropped', False):
+        return err(EnumV('TrySendError', 'Disconnected', 1, (argv[1],)))
+    cap = getattr(env, 'chan_cap', None)
+    if cap is not None and len(env.queue) >= cap:
+        return err(EnumV('TrySendError', 'Full', 0, (argv[1],)))
     env.queue.append(argv[1])
     return ok(UNIT)
 
@@ -1091,9 +1150,9 @@ def m_try_recv(it, argv, text):
     if getattr(env, 'sched_policy', 'all') == 'fifo':
         # one fixed schedule (used where the property does not depend on the completion order)
         while True:
-            if env.queue:
+            if _chan_nonempty(env):
                 env.idle_empties = 0
-                return ok(env.queue.pop(0))
+                return ok(_chan_pop(env))
             if env.pending:
                 env.idle_empties = 0
                 _run_task(it, env, 0)
@@ -1105,7 +1164,7 @@ def m_try_recv(it, argv, text):
             return EMPTY
     while True:
         opts = []
-        if env.queue:
+        if _chan_nonempty(env):
             opts.append(('deliver', None))
         else:
             for k in range(len(env.pending)):
@@ -1117,7 +1176,7 @@ def m_try_recv(it, argv, text):
         if kind == 'deliver':
             env.stuttered = False
             env.idle_empties = 0
-            msg = env.queue.pop(0)
+            msg = _chan_pop(env)
             env.sched_trace.append(('recv',))
             return ok(msg)
         if kind == 'run':
@@ -1127,7 +1186,7 @@ def m_try_recv(it, argv, text):
             continue
         # empty
         env.sched_trace.append(('empty',))
-        if not env.pending and not env.queue:
+        if not env.pending and not _chan_nonempty(env):
             # the run loop and the drop loop may each observe one idle Empty before exiting; more than that is a
             # loop that polls forever (done != total with nothing in flight)
             env.idle_empties = getattr(env, 'idle_empties', 0) + 1
